@@ -1,5 +1,7 @@
 package actor
 
+import "github.com/anthdm/hollywood/zzverif/vsched"
+
 // Harness-only accessors, added to package actor through the build overlay. They only
 // read or call repository code.
 
@@ -32,3 +34,7 @@ func VerifProcInbox(e *Engine, pid *PID) *Inbox {
 // code tolerates a nil event stream). Used by "quiet" scenarios that do not observe events, so
 // that the exploration budget goes into the mechanism under test instead of event fan-out.
 func VerifMuteEvents(e *Engine) { e.eventStream = nil }
+
+// VerifResponsePending reports how many replies sit unread in the mailbox of a response (a reply
+// that arrived at the same moment the requester's timeout was taken stays there).
+func VerifResponsePending(r *Response) int { return vsched.ChanLen(r.result) }
